@@ -87,13 +87,24 @@ def ob_lu_single():
         token = ("LU-OF", "weak(A)")
         recf = Rec(lambda m: (token, m))
         recs = Rec(sol)
-        with scipy_stubs({"lu_factor": recf, "lu_solve": recs, "solve": Rec(lambda *a, **k: (_ for _ in ()).throw(AssertionError("solve called although factors were given")))}):
-            fac = compute_lu_factors(A)
-            out = lu(A, b, lu_factor=fac)
-        ok = (len(recf.calls) == 1 and same(recf.calls[0][0][0], W) is None and len(recs.calls) == 1 and recs.calls[0][0][0] is fac
-              and same(recs.calls[0][0][1], W @ fc) is None and same(out.coefficients, sol) is None and out.space is sp["P"])
-        res.append(("lu with precomputed factors", proved("sym-exec+recording-stubs", "lu_solve(lu_factor(weak(A)), same rhs)") if ok else
-                    violated("precomputed LU path does not solve the same system", signature="lu/factors")))
+        crashed = None
+        try:
+            with scipy_stubs({"lu_factor": recf, "lu_solve": recs, "solve": Rec(lambda *a, **k: (_ for _ in ()).throw(AssertionError("solve called although factors were given")))}):
+                fac = compute_lu_factors(A)
+                out = lu(A, b, lu_factor=fac)
+            ok = (len(recf.calls) == 1 and same(recf.calls[0][0][0], W) is None and len(recs.calls) == 1 and recs.calls[0][0][0] is fac
+                  and same(recs.calls[0][0][1], W @ fc) is None and same(out.coefficients, sol) is None and out.space is sp["P"])
+        except Exception as ex:  # noqa  (the real code manipulates the factors / the right-hand side in a way the recording stubs cannot follow)
+            ok, crashed = False, "%s: %s" % (type(ex).__name__, str(ex)[:100])
+    if not ok:
+        rp = replay_numeric("lu")         # native decision, outside the object-algebra context
+        if rp["violates"] or crashed is None:
+            res.append(("lu with precomputed factors", violated("precomputed LU path does not solve the same system%s; native: %s" % ("" if crashed is None else " (symbolic run: %s)" % crashed, rp["failing"]),
+                                                                 signature="lu/factors", replay={"callable": "checks.c15:replay_numeric", "kwargs": {"which": "lu"}, "confirmed": rp["violates"], "result": rp})))
+        else:
+            res.append(("lu with precomputed factors", undecided("symbolic run not possible (%s); the native contract holds" % crashed)))
+    else:
+        res.append(("lu with precomputed factors", proved("sym-exec+recording-stubs", "lu_solve(lu_factor(weak(A)), same rhs)")))
     return res
 
 
@@ -294,6 +305,9 @@ def replay_numeric(which):
         errs["lu(V, V f)"] = Z.relerr(lu(V, V * f0).coefficients, f0.coefficients)
         errs["lu(Vh, Vh f) complex"] = Z.relerr(lu(Vh, Vh * fc).coefficients, fc.coefficients)
         errs["lu precomputed"] = Z.relerr(lu(V, V * f0, lu_factor=compute_lu_factors(V)).coefficients, lu(V, V * f0).coefficients)
+        # real operator, complex right-hand side, with and without precomputed factors
+        errs["lu real operator, complex rhs"] = Z.relerr(lu(V, V * fc).coefficients, fc.coefficients)
+        errs["lu real operator, complex rhs, precomputed factors"] = Z.relerr(lu(V, V * fc, lu_factor=compute_lu_factors(V)).coefficients, fc.coefficients)
         errs["lu(second, second f)"] = Z.relerr(lu(second, second * f1).coefficients, f1.coefficients)
     if which in ("lu-blocked", "all"):
         B = api.BlockedOperator(2, 2)
@@ -301,6 +315,9 @@ def replay_numeric(which):
         B[0, 1] = api.operators.boundary.laplace.single_layer(p1, dp0, dp0, parameters=Z.params(3, 3))
         sol = lu(B, B * [f0, f1])
         errs["lu blocked"] = max(Z.relerr(sol[0].coefficients, f0.coefficients), Z.relerr(sol[1].coefficients, f1.coefficients))
+        f1c = api.GridFunction(p1, coefficients=rng.randn(p1.global_dof_count) + 1j * rng.randn(p1.global_dof_count))
+        solc = lu(B, B * [fc, f1c], lu_factor=compute_lu_factors(B))
+        errs["lu blocked, complex rhs, precomputed factors"] = max(Z.relerr(solc[0].coefficients, fc.coefficients), Z.relerr(solc[1].coefficients, f1c.coefficients))
         ok_spaces = sol[0].space == dp0 and sol[1].space == p1
         if not ok_spaces:
             errs["lu blocked spaces"] = 1.0
